@@ -304,6 +304,9 @@ func (e *gEnum) push(entry string, toks []gTok, prod string, lower bool) {
 			return
 		}
 	}
+	if gExcludedToks(toks) {
+		return
+	}
 	key := entry + "|" + text
 	e.perProd[prod]++ // coverage counts derivations, also those whose text another production already produced
 	if e.seen[key] {
